@@ -77,7 +77,9 @@ def descriptor_text(cid: str, parent_cid: str, create_type: str, extents: list[s
     if parent_hint is not None:
         lines.append(f'parentFileNameHint="{parent_hint}"')
     lines += ["", "# Extent description"] + extents + ["", "# The Disk Data Base", "#DDB", ""]
-    for k, v in (ddb or {"ddb.virtualHWVersion": "4", "ddb.adapterType": "lsilogic", "ddb.geometry.sectors": "63"}).items():
+    if ddb is None:
+        ddb = {"ddb.virtualHWVersion": "4", "ddb.adapterType": "lsilogic", "ddb.geometry.sectors": "63"}
+    for k, v in ddb.items():
         lines.append(f'{k} = "{v}"')
     return "\n".join(lines) + "\n"
 
